@@ -356,8 +356,12 @@ LOOP:
 					go func(job *CronJob) {
 						c.run(ctx, job)
 					}(job)
-					c.resetTimer()
 				}
+				// Also when the head isn't ready (say because
+				// the previous head was removed): this timer
+				// has fired, and nothing else would arm it
+				// again for the jobs that remain.
+				c.resetTimer()
 			}
 			c.Unlock()
 			// elapsed := time.Now().Sub(now)
